@@ -51,14 +51,14 @@ package boltz
 //@   ensures[one-delivery-registered] result == nil ==> regOne(ctxTx[ecsCtx[self]], fnid("(*github.com/openziti/storage/boltz.EntityChangeState[E]).processPostCommit$bound"), self) && ocOthersSame(ctxTx[ecsCtx[self]])
 //@   ensures[vetoed-registers-nothing] result != nil ==> ocSame()
 //@ func (entityChangeFlow).initFromChild
-//@   modifies *, any EntityChangeState.Ctx, any EntityChangeState.ChangeType, any EntityChangeState.EntityId, any EntityChangeState.InitialState, ecsCtx[self], ecsKind[self], ecsId[self], ecsParent[self]
+//@   modifies *, any EntityChangeState.Ctx, any EntityChangeState.ChangeType, any EntityChangeState.EntityId, any EntityChangeState.InitialState, any EntityChangeState.FinalState, ecsCtx[self], ecsKind[self], ecsId[self], ecsParent[self]
 //@   ensures[takes-the-child-flow's-context-and-kind] ecsCtx[self] == old(ecsCtx[flow]) && ecsKind[self] == old(ecsKind[flow]) && ecsId[self] == old(ecsId[flow]) && ecsParent[self]
 //@   ensures[child-flow-untouched] ecsCtx[flow] == old(ecsCtx[flow]) && ecsKind[flow] == old(ecsKind[flow]) && ecsId[flow] == old(ecsId[flow])
 //@ func (*EntityChangeState).initFromChild
 //@   props C08
 //@   nosafety
 //@   waive immutable two-step construction: the parent state was allocated by newEntityChangeFlow just before and is filled here before anything else sees it
-//@   modifies *, self.Ctx, self.ChangeType, self.EntityId, self.InitialState
+//@   modifies *, self.Ctx, self.ChangeType, self.EntityId, self.InitialState, self.FinalState
 //@   ensures[takes-the-child-flow's-context-and-kind] ref(self.Ctx) == old(ecsCtx[flow]) && self.ChangeType == old(ecsKind[flow]) && self.ParentEvent && self.EntityId == old(ecsId[flow])
 //@ func (UntypedEntityChangeState).GetCtx
 //@   pure
@@ -152,3 +152,95 @@ package boltz
 //@   errflow
 //@   nosafety
 //@   modifies *, ocCnt, ocFn, ocRecv
+
+// ---- delivery: what runs after the commit ----
+// ppN/ppWho/ppState: the log of ProcessPostCommit calls (which constraint, with which state)
+//@ ghost ppN : Int private
+//@ ghost ppWho : (Array Int Int) private
+//@ ghost ppState : (Array Int Int) private
+//@ func (EntityConstraint).ProcessPostCommit
+//@   modifies *, ppN, ppWho, ppState
+//@   ensures[logged] ppN == old(ppN) + 1 && ppWho == sto(old(ppWho), old(ppN), ref(self)) && ppState == sto(old(ppState), old(ppN), ref(arg0))
+// processPostCommit: every constraint of the store's current snapshot is told once, in order, with this state
+//@ func (*EntityChangeState).processPostCommit
+//@   props C07 C08
+//@   nosafety
+//@   requires[after-commit] committed
+//@   modifies *, ppN, ppWho, ppState
+//@   ensures[every-constraint-once-in-order] ppN == old(ppN) + cowLen(old(self.store.entityConstraints)) && forall(i, 0 <= i && i < cowLen(old(self.store.entityConstraints)) ==> sel(ppWho, old(ppN) + i) == cowAt(old(self.store.entityConstraints), i) && sel(ppState, old(ppN) + i) == ref(self))
+//@   invariant 1: ppN == old(ppN) + rangeindex + 1 && forall(i, 0 <= i && i <= rangeindex ==> sel(ppWho, old(ppN) + i) == cowAt(old(self.store.entityConstraints), i) && sel(ppState, old(ppN) + i) == ref(self)) && forall(i, 0 <= i && i < old(ppN) ==> sel(ppWho, i) == sel(old(ppWho), i) && sel(ppState, i) == sel(old(ppState), i))
+//@ immutable H.boltz.EntityChangeState.store
+//@ immutable H.boltz.EntityChangeState.FinalState
+
+// the listener adapters: the listener is invoked once for every entry of changeTypes that matches the state's kind
+// (synchronously or spawned), with the final state for create/update and the initial state for delete
+//@ ghost lsCnt : (Array Int Int) private
+//@ ghost lsArg : (Array Int (Array Int Int)) private
+//@ spec evMatch(t Int, kind Int) Bool = (or (and (= kind 1) (or (= t 1) (= t 4))) (and (= kind 2) (or (= t 2) (= t 5))) (and (= kind 3) (or (= t 3) (= t 6))))
+//@ spec cntMatch(a (Array Int Int), n Int, kind Int) Int
+//@ axiom cntMatch_zero: (forall ((a (Array Int Int)) (n Int) (kind Int)) (! (=> (<= n 0) (= (cntMatch a n kind) 0)) :pattern ((cntMatch a n kind))))
+//@ axiom cntMatch_step: (forall ((a (Array Int Int)) (n Int) (kind Int)) (! (=> (> n 0) (= (cntMatch a n kind) (+ (cntMatch a (- n 1) kind) (ite (evMatch (select a (- n 1)) kind) 1 0)))) :pattern ((cntMatch a n kind) (select a (- n 1)))))
+//@ func (EntityEventType).IsCreate
+//@   props C08
+//@   pure
+//@   ensures result == (self == EntityCreated || self == EntityCreatedAsync)
+//@ func (EntityEventType).IsUpdate
+//@   props C08
+//@   pure
+//@   ensures result == (self == EntityUpdated || self == EntityUpdatedAsync)
+//@ func (EntityEventType).IsDelete
+//@   props C08
+//@   pure
+//@   ensures result == (self == EntityDeleted || self == EntityDeletedAsync)
+//@ func (EntityEventType).IsAsync
+//@   props C08
+//@   pure
+//@ define delivered(L, self, state) = lsCnt[L] == old(lsCnt[L]) + cntMatch(arr(self.changeTypes), len(self.changeTypes), state.ChangeType) && forall(j, old(lsCnt[L]) <= j && j < lsCnt[L] ==> sel(lsArg[L], j) == ite(state.ChangeType == EntityDeleted, ref(state.InitialState), ref(state.FinalState)))
+//@ define deliveredUpTo(L, self, state, n) = lsCnt[L] == old(lsCnt[L]) + cntMatch(arr(self.changeTypes), n, state.ChangeType) && forall(j, old(lsCnt[L]) <= j && j < lsCnt[L] ==> sel(lsArg[L], j) == ite(state.ChangeType == EntityDeleted, ref(state.InitialState), ref(state.FinalState)))
+//@ immutable H.boltz.untypedEventListenerWrapper.changeTypes.len
+//@ immutable H.boltz.untypedEventListenerWrapper.changeTypes.nil
+//@ immutable H.boltz.untypedEventListenerWrapper.changeTypes.arr.
+//@ immutable H.boltz.entityFunctionListenerAdapter.changeTypes.len
+//@ immutable H.boltz.entityFunctionListenerAdapter.changeTypes.nil
+//@ immutable H.boltz.entityFunctionListenerAdapter.changeTypes.arr.
+//@ immutable H.boltz.entityListenerAdapter.changeTypes.len
+//@ immutable H.boltz.entityListenerAdapter.changeTypes.nil
+//@ immutable H.boltz.entityListenerAdapter.changeTypes.arr.
+//@ immutable H.boltz.entityListenerAdapter.eventListener.typ
+//@ immutable H.boltz.entityListenerAdapter.eventListener.val
+//@ funcfield untypedEventListenerWrapper.eventListener(e)
+//@   modifies *, lsCnt[self], lsArg[self]
+//@   ensures lsCnt[self] == old(lsCnt[self]) + 1 && lsArg[self] == sto(old(lsArg[self]), old(lsCnt[self]), ref(e))
+//@ func (*untypedEventListenerWrapper).ProcessPostCommit
+//@   props C08
+//@   nosafety
+//@   modifies *, lsCnt[self], lsArg[self]
+//@   ensures[once-per-matching-entry-with-the-right-state] delivered(self, self, state)
+//@   invariant 1: deliveredUpTo(self, self, state, rangeindex + 1)
+//@ funcfield entityFunctionListenerAdapter.eventListener(e)
+//@   modifies *, lsCnt[self], lsArg[self]
+//@   ensures lsCnt[self] == old(lsCnt[self]) + 1 && lsArg[self] == sto(old(lsArg[self]), old(lsCnt[self]), ref(e))
+//@ func (*entityFunctionListenerAdapter).ProcessPostCommit
+//@   props C08
+//@   nosafety
+//@   modifies *, lsCnt[self], lsArg[self]
+//@   ensures[once-per-matching-entry-with-the-right-state] delivered(self, self, state)
+//@   invariant 1: deliveredUpTo(self, self, state, rangeindex + 1)
+//@ func (EntityEventListener).HandleEntityEvent
+//@   modifies *, lsCnt[self], lsArg[self]
+//@   ensures lsCnt[self] == old(lsCnt[self]) + 1 && lsArg[self] == sto(old(lsArg[self]), old(lsCnt[self]), ref(arg0))
+//@ func (*entityListenerAdapter).ProcessPostCommit
+//@   props C08
+//@   nosafety
+//@   modifies *, lsCnt, lsArg
+//@   ensures[once-per-matching-entry-with-the-right-state] delivered(self.eventListener, self, state)
+//@   invariant 1: deliveredUpTo(self.eventListener, self, state, rangeindex + 1)
+
+// a mutate context registers its commit handler exactly once per transaction it is bound to (and none when unbound)
+//@ func (*mutateContext).setTx
+//@   props C08
+//@   nosafety
+//@   modifies self.tx, ocCnt, ocFn, ocRecv
+//@   ensures[bound] self.tx == tx && result != nil
+//@   ensures[commit-handler-registered-once] tx != nil ==> regOne(tx, fnid("(*github.com/openziti/storage/boltz.mutateContext).handleCommit$bound"), self) && ocOthersSame(tx)
+//@   ensures[no-transaction-no-registration] tx == nil ==> ocSame()
